@@ -78,7 +78,20 @@ def run_case(case, with_setters=False):
     labels |= lb2
     if is_raised(obj):
         return fail("construct_raised", f"{obj}", obj.key, labels)
+    ctx = obj._buffer.context
+    ks = sut(cbuild.compile_api, node.cls, ctx, case.get("o3", False))
+    if is_raised(ks):
+        return fail("api_build_failed", f"{ks}", ks.key, labels)
+    root = node.cls.__name__
     if case.get("grow"):
+        # the accessors are used once BEFORE the storage is replaced (anything cached per kernel or per buffer at
+        # that point must not survive the growth), then compared in full afterwards
+        k0 = ctx.kernels[f"{root}_getp"]
+        w = sut(lambda: cbuild.to_int(k0, k0(obj=obj)))
+        if is_raised(w):
+            return fail("getp_raised", f"{root}_getp before growth: {w}", w.key, labels)
+        if w != cbuild.base_address(obj):
+            return fail("getp_vs_python", f"{root}_getp before growth: {w - cbuild.base_address(obj)} bytes off", "root", labels)
         g = sut(obj._buffer.grow, case["grow"])
         if is_raised(g):
             return fail("grow_raised", f"{g}", g.key, labels)
@@ -86,11 +99,6 @@ def run_case(case, with_setters=False):
     model = sut(mat.walk, obj, node)
     if is_raised(model):
         return fail("read_raised", f"{model}", model.key, labels)
-    ctx = obj._buffer.context
-    ks = sut(cbuild.compile_api, node.cls, ctx, case.get("o3", False))
-    if is_raised(ks):
-        return fail("api_build_failed", f"{ks}", ks.key, labels)
-    root = node.cls.__name__
     base = cbuild.base_address(obj)
     off0 = int(obj._offset)
     img = pl.snapshot(obj._buffer)
